@@ -113,6 +113,10 @@ def run_case(case):
             w = d / f"w{k}"
             shutil.copytree(b.parent, w)
             fb = w / b.name
+            earlier = bool(rng.integers(0, 2))        # companions present: {bin} or {bin, cbin+ch of an earlier, complete compression}
+            if earlier:
+                shutil.copy((ref / b.name).with_suffix(".cbin"), fb.with_suffix(".cbin"))
+                shutil.copy((ref / b.name).with_suffix(".ch"), fb.with_suffix(".ch"))
             before = M.snapshot(w)
 
             def cc(self, chunk_idx, _k=k):
@@ -132,13 +136,23 @@ def run_case(case):
                     sr.close()
             finally:
                 mtscomp.Writer._compress_chunk = orig_cc
-            lab = f"{label}: compress_file(keep_original={keep}) failing at chunk {k}/{nchunks}"
+            lab = f"{label}: compress_file(keep_original={keep}) failing at chunk {k}/{nchunks}" + (" with an earlier complete .cbin/.ch present" if earlier else "")
             res.check(raised, "compress-fault:swallowed", f"{lab}: the failure did not propagate")
             res.check(fb.exists() and fb.read_bytes() == src_bytes, "compress-fault:source-touched", f"{lab}: source .bin missing or modified")
             cb = fb.with_suffix(".cbin")
             if cb.exists():
-                res.check(fb.with_suffix(".ch").exists() and cbin_decodes_to(cb, fb.with_suffix(".ch"), raw), "compress-fault:partial-final-name",
-                          f"{lab}: a .cbin exists after the failure and is not complete")
+                res.check(fb.with_suffix(".ch").exists() and cbin_decodes_to(cb, fb.with_suffix(".ch"), raw),
+                          "compress-fault:earlier-cbin-broken" if earlier else "compress-fault:partial-final-name",
+                          f"{lab}: a .cbin carries the final name after the failure but does not decode (with its .ch) to the recording; files: {sorted(p.name for p in w.iterdir())}")
+                if earlier:
+                    try:
+                        src2 = spikeglx.Reader(cb, **kw)
+                        res.check(src2.shape == raw.shape, "compress-fault:earlier-cbin-broken", f"{lab}: the earlier .cbin opens with shape {src2.shape}")
+                        src2.close()
+                    except Exception as e:
+                        res.exception("compress-fault:earlier-cbin-broken", e, lab)
+            elif earlier:
+                res.violation("compress-fault:earlier-cbin-broken", f"{lab}: the complete .cbin of the earlier run disappeared")
             after = M.snapshot(w)
             added, removed, changed = M.snapshot_diff(before, after)
             res.check(not removed and not changed, "compress-fault:files-changed", f"{lab}: removed {removed} changed {changed}")
